@@ -30,7 +30,13 @@ def gen_ops(rnd, n):
         c = rnd.randrange(len(have))
         s = rnd.choice(sorted(have[c])) if have[c] and rnd.random() < .7 else rnd.choice([0, 0, 1, 1, 2, 3, 4, 5])
         f = rnd.choice(allowed(s))
-        if k < .05:
+        if k < .03:
+            # a further container instantiated from the very definitions mapping (the same dict object) of an earlier one
+            news = [o for o in ops if o[0] == 'new']
+            d = rnd.choice(news)[1]
+            ops.append(('newshared', [o for o in ops if o[0] == 'new'].index(rnd.choice([o for o in news if o[1] is d]))))
+            have.append(set(x for x, _, _ in d))
+        elif k < .05:
             d = [(x, rnd.choice(allowed(x)), rnd.random() < .6) for x in rnd.sample(range(6), rnd.randint(0, 3))]
             ops.append(('new', d))
             have.append(set(x for x, _, _ in d))
@@ -80,6 +86,7 @@ def run_impl(ops):
     from rogw.tranp.lang.module import to_fullyname
     U.SEQ[0] = 0
     pool, obs, cops = [], [], []
+    def_objs = []
     made = []        # objects seen so far (for 'prev' arguments)
     extra = [0]
 
@@ -95,8 +102,16 @@ def run_impl(ops):
                 defs = {}
                 for s, f, byname in op[1]:
                     defs[to_fullyname(U.SYMS[s])] = ('di_universe.F%d' % f) if byname else U.FACS[f]
+                def_objs.append((defs, op))
                 pool.append(LazyDI.instantiate(defs))
                 cops.append(op)
+                obs.append(('unit',))
+            elif op[0] == 'newshared':
+                if not def_objs:
+                    def_objs.append(({}, ('new', [])))      # (a shrunk sequence may have lost the container it referred to)
+                defs, org = def_objs[op[1] % len(def_objs)]
+                cops.append(org)                 # for the models: a new container over the definitions as they were written
+                pool.append(LazyDI.instantiate(defs))
                 obs.append(('unit',))
             elif op[0] == 'bind':
                 cops.append(op)
@@ -225,6 +240,8 @@ class Ref:
                     obs.append(('unit',))
             except ValueError:
                 obs.append(('err',))
+            except IndexError:
+                obs.append(('other', 'IndexError'))      # a container index that does not exist (shrunk sequences): the same on both sides
         return obs
 
 
